@@ -167,4 +167,21 @@ def _r(repo):
     for must in ("minijinja/src/vm/mod.rs::eval_impl", "minijinja/src/vm/context.rs::load"):
         if must not in xs:
             raise KeyError("context reader " + must)
-    return xs, lean_list("c18ContextReaders", xs)
+    pairs = [tuple(x.split("::")) for x in xs]
+    lean = "def c18ContextReaders : List (String × String) := [" + ", ".join(
+        f"({lean_str(a)}, {lean_str(b)})" for a, b in pairs) + "]"
+    return xs, lean
+
+
+@item("C18_BUILTIN_FILES")
+def _bf(repo):
+    """the source files that implement builtin filters, tests, functions, value/object methods"""
+    files = [f for f in _rs_files(repo)
+             if f in ("minijinja/src/filters.rs", "minijinja/src/tests.rs", "minijinja/src/functions.rs",
+                      "minijinja/src/defaults.rs", "minijinja-contrib/src/pycompat.rs",
+                      "minijinja-contrib/src/globals.rs", "minijinja-contrib/src/tests.rs")
+             or f.startswith("minijinja/src/value/")]
+    for must in ("minijinja/src/filters.rs", "minijinja/src/tests.rs", "minijinja/src/functions.rs"):
+        if must not in files:
+            raise KeyError(must)
+    return files, lean_list("c18BuiltinFiles", files)
